@@ -36,6 +36,8 @@ fn ip_headers(cfg: &Value) -> IpHeaders {
         let mut h = Ipv4Header::new(0, TTL, IpNumber(0), SRC4, DST4).unwrap();
         h.identification = 0x7788;
         h.dont_fragment = true;
+        h.dscp = IpDscp::try_new(45).unwrap();
+        h.ecn = IpEcn::try_new(2).unwrap();
         h.options = vec![1u8; cfg["opts"].as_u64().unwrap() as usize].as_slice().try_into().unwrap();
         let exts = Ipv4Extensions { auth: if cfg["auth"].as_u64().unwrap() == 1 { Some(IpAuthHeader::new(IpNumber(0), 0x01020304, 0x0a0b0c0d, &[0x77; 8]).unwrap()) } else { None } };
         IpHeaders::Ipv4(h, exts)
